@@ -608,7 +608,7 @@ pub fn gen_sync(rng: &mut Rng, thorough: bool) -> SScenario {
     let mut knobs = crate::mgen::gen_knobs(rng, true, false);
     // the sync layer has its own sites: harness closure points (and none of the pool's)
     knobs.sites.retain(|s| !s.starts_with("unmanaged.") && !s.starts_with("sync."));
-    for s in ["harness.closure.begin", "harness.closure.mid", "harness.closure.end", "harness.dtor"] {
+    for s in ["harness.closure.begin", "harness.closure.mid", "harness.closure.end", "harness.dtor", "sync.arc.post_count", "sync.arc.post_clone", "sync.arc.pre_drop"] {
         if rng.below(100) < 70 {
             knobs.sites.push(s.to_string());
         }
